@@ -7,7 +7,10 @@ for n in sorted(os.listdir(out)):
     d = os.path.join(out, n)
     if not os.path.isdir(d) or not os.path.exists(os.path.join(d, "patch.diff")):
         continue
-    dst = "/verif/seeded/%s-%s" % (prop, n)
+    k = int(n) + (int(sys.argv[3]) if len(sys.argv) > 3 else 0)
+    dst = "/verif/seeded/%s-%d" % (prop, k)
+    if os.path.exists(os.path.join(dst, "patch.diff")):
+        sys.exit("refusing to overwrite %s (pass an offset as third argument)" % dst)
     os.makedirs(dst, exist_ok=True)
     for fn in os.listdir(d):
         if fn.startswith("test_full") or fn.endswith(".log"):
